@@ -54,6 +54,11 @@ type Shape struct {
 	FG       bool      `json:"fg"`       // funcref global fg = ref.func f1 and tsetfg(s): table.set s (global.get fg)
 	TailCall bool      `json:"tailcall"` // export trcall (return_call_indirect); needs the tail-call feature    // identity baked into the module: f1 returns ID*10+1, f2 ID*10+2
 	Passive  bool      `json:"passive"`
+	// From: module name the "imp" parts are imported from (default "env"); Reexport: export them again under the same names,
+	// so that another module can import them from this one; FuncLast: the function import comes after the other imports
+	From     string `json:"from"`
+	Reexport bool   `json:"reexport"`
+	FuncLast bool   `json:"funclast"`
 }
 
 type DataSeg struct {
@@ -81,15 +86,29 @@ func Build(s Shape) []byte {
 	i32x2 := []wasm.ValueType{wb.I32, wb.I32}
 	i32x3 := []wasm.ValueType{wb.I32, wb.I32, wb.I32}
 	// ---- imports first
+	from := s.From
+	if from == "" {
+		from = "env"
+	}
 	var incIdx uint32
 	hasInc := false
-	if s.Inc == "imp" {
-		if s.IncSig == "i32" {
-			incIdx = m.ImportFunc("env", "inc", i32, i32)
-		} else {
-			incIdx = m.ImportFunc("env", "inc", nil, i32)
+	importInc := func() {
+		if s.Inc == "imp" {
+			if s.IncSig == "i32" {
+				incIdx = m.ImportFunc(from, "inc", i32, i32)
+			} else {
+				incIdx = m.ImportFunc(from, "inc", nil, i32)
+			}
+			hasInc = true
+			if s.Reexport {
+				m.Export("inc", wasm.ExternTypeFunc, incIdx)
+			}
 		}
-		hasInc = true
+	}
+	if !s.FuncLast {
+		importInc()
+	} else {
+		m.TypeIndex([]wasm.ValueType{wb.I64, wb.F32}, nil) // so that type 0 is not the type of any import
 	}
 	var hostIdx [3]uint32
 	if s.Host {
@@ -98,14 +117,20 @@ func Build(s Shape) []byte {
 		}
 	}
 	if s.Mem == "imp" {
-		m.ImportMemory("env", "mem", uint32(s.MemLim.Min), s.MemLim.maxp())
+		m.ImportMemory(from, "mem", uint32(s.MemLim.Min), s.MemLim.maxp())
+		if s.Reexport {
+			m.Export("mem", wasm.ExternTypeMemory, 0)
+		}
 	}
 	tabType := wasm.RefTypeFuncref
 	if s.TabType == "externref" {
 		tabType = wasm.RefTypeExternref
 	}
 	if s.Tab == "imp" {
-		m.ImportTable("env", "tab", tabType, uint32(s.TabLim.Min), s.TabLim.maxp())
+		m.ImportTable(from, "tab", tabType, uint32(s.TabLim.Min), s.TabLim.maxp())
+		if s.Reexport {
+			m.Export("tab", wasm.ExternTypeTable, 0)
+		}
 	}
 	var gIdx, hIdx uint32
 	gType := wb.I32
@@ -113,10 +138,19 @@ func Build(s Shape) []byte {
 		gType = wb.I64
 	}
 	if s.G == "imp" {
-		gIdx = m.ImportGlobal("env", "g", gType, s.GMut)
+		gIdx = m.ImportGlobal(from, "g", gType, s.GMut)
+		if s.Reexport {
+			m.Export("g", wasm.ExternTypeGlobal, gIdx)
+		}
 	}
 	if s.H == "imp" {
-		hIdx = m.ImportGlobal("env", "h", wb.I32, false)
+		hIdx = m.ImportGlobal(from, "h", wb.I32, false)
+		if s.Reexport {
+			m.Export("h", wasm.ExternTypeGlobal, hIdx)
+		}
+	}
+	if s.FuncLast {
+		importInc()
 	}
 	// ---- definitions
 	if s.Mem == "own" {
